@@ -407,8 +407,10 @@ class Node(object):
         server.cust = False
         server.busy = False
         individual.server = False
-        server.busy_time = self.increment_time(server.busy_time - server.busy_time_at_wrap_up, individual.exit_date - individual.service_start_date)
-        server.busy_time_at_wrap_up = 0
+        if server.busy_time_before_wrap_up is not None:
+            server.busy_time = server.busy_time_before_wrap_up
+            server.busy_time_before_wrap_up = None
+        server.busy_time = self.increment_time(server.busy_time, individual.exit_date - individual.service_start_date)
         server.total_time = self.now - server.start_date
         if server.offduty:
             self.kill_server(server)
@@ -535,7 +537,7 @@ class Node(object):
         """
         srvr.total_time = self.increment_time(self.now, -srvr.start_date)
         self.overtime.append(self.increment_time(self.now, -srvr.shift_end))
-        self.all_servers_busy.append(srvr.busy_time - srvr.busy_time_at_wrap_up)
+        self.all_servers_busy.append(srvr.busy_time if srvr.busy_time_before_wrap_up is None else srvr.busy_time_before_wrap_up)
         self.all_servers_total.append(srvr.total_time)
         indx = self.servers.index(srvr)
         del self.servers[indx]
@@ -869,8 +871,9 @@ class Node(object):
                 srvr.total_time = self.increment_time(current_time, -srvr.start_date)
                 if srvr.busy:
                     busy_time_so_far = self.increment_time(current_time, -srvr.cust.service_start_date)
-                    srvr.busy_time += busy_time_so_far - srvr.busy_time_at_wrap_up
-                    srvr.busy_time_at_wrap_up = busy_time_so_far
+                    if srvr.busy_time_before_wrap_up is None:
+                        srvr.busy_time_before_wrap_up = srvr.busy_time
+                    srvr.busy_time = self.increment_time(srvr.busy_time_before_wrap_up, busy_time_so_far)
 
     def write_individual_record(self, individual):
         """
